@@ -77,17 +77,17 @@ Proof.
 Qed.
 
 (* ---- LookupName: the answer is what the slots say ---- *)
-Theorem lookup_name_spec st n st' r : coh st -> lookup_name st n = (st', r) ->
+Theorem dm_lookup_spec st n st' r : coh st -> dm_lookup st n = (st', r) ->
   coh st' /\ d_slots st' = d_slots st /\
   (forall i k, r = Some (i, k) <-> at_ (d_slots st) k (n, i)).
 Proof.
-  intros H E. unfold lookup_name in E. destruct (ensure st) as [st1 c] eqn:Een. injection E as <- <-.
+  intros H E. unfold dm_lookup in E. destruct (ensure st) as [st1 c] eqn:Een. injection E as <- <-.
   destruct (ensure_coh _ _ _ H Een) as (H1 & Hs & Hc). split; [exact H1|]. split; [exact Hs|].
   intros i k. rewrite <- Hs. apply (coh_cache _ H1 _ Hc).
 Qed.
-Corollary lookup_name_none st n st' : coh st -> lookup_name st n = (st', None) -> absent (d_slots st) n.
+Corollary dm_lookup_none st n st' : coh st -> dm_lookup st n = (st', None) -> absent (d_slots st) n.
 Proof.
-  intros H E i k Ha. destruct (lookup_name_spec _ _ _ _ H E) as (_ & _ & S). apply S in Ha. discriminate.
+  intros H E i k Ha. destruct (dm_lookup_spec _ _ _ _ H E) as (_ & _ & S). apply S in Ha. discriminate.
 Qed.
 
 (* ---- slots ---- *)
@@ -246,9 +246,8 @@ Proof. intros [U C]. split; [exact U|]. simpl. intros c [=]. Qed.
 Inductive dop := DLookup (n : name) | DAdd (i : N) (n : name) (room : bool) | DRem (n : name) | DDrop.
 Definition dstep (st : dstate) (o : dop) : dstate :=
   match o with
-  | DLookup n => fst (lookup_name st n)
-  | DAdd i n room => let '(st1, r) := lookup_name st n in
-                     match r with Some _ => st1 | None => fst (add_name st1 i n room) end
+  | DLookup n => fst (dm_lookup st n)
+  | DAdd i n room => fst (dm_addx st i n room)
   | DRem n => fst (rem_name st n)
   | DDrop => drop_cache st
   end.
@@ -256,12 +255,12 @@ Definition dstep (st : dstate) (o : dop) : dstate :=
 Theorem dstep_ok st o : coh st -> coh (dstep st o) /\ step_ok (d_slots st) (d_slots (dstep st o)).
 Proof.
   intros H. destruct o as [n|i n room|n|]; simpl.
-  - destruct (lookup_name st n) as [st' r] eqn:E. destruct (lookup_name_spec _ _ _ _ H E) as (H' & Hs & _).
+  - destruct (dm_lookup st n) as [st' r] eqn:E. destruct (dm_lookup_spec _ _ _ _ H E) as (H' & Hs & _).
     simpl. rewrite Hs. split; [exact H'|apply step_ok_refl].
-  - destruct (lookup_name st n) as [st1 r] eqn:E. destruct (lookup_name_spec _ _ _ _ H E) as (H1 & Hs & Sp).
+  - unfold dm_addx. destruct (dm_lookup st n) as [st1 r] eqn:E. destruct (dm_lookup_spec _ _ _ _ H E) as (H1 & Hs & Sp).
     destruct r as [[i' k']|].
-    + rewrite Hs. split; [exact H1|apply step_ok_refl].
-    + assert (Ha : absent (d_slots st1) n). { rewrite Hs. eapply lookup_name_none; eauto. }
+    + simpl. rewrite Hs. split; [exact H1|apply step_ok_refl].
+    + assert (Ha : absent (d_slots st1) n). { rewrite Hs. eapply dm_lookup_none; eauto. }
       destruct (add_name st1 i n room) as [st2 [|]] eqn:E2; simpl.
       * destruct (add_name_ok _ _ _ _ _ H1 Ha E2) as (H2 & _ & _ & _ & St). rewrite <- Hs. auto.
       * destruct (add_name_fail _ _ _ _ _ H1 E2) as (H2 & Hs2). rewrite Hs2, Hs. split; [exact H2|apply step_ok_refl].
